@@ -854,3 +854,323 @@ Proof.
     rewrite Hh0. reflexivity. }
   rewrite Hloc. reflexivity.
 Qed.
+
+(* ---------- parseNumberExp ---------- *)
+Definition class_of (o : option numeral_value) : num_class :=
+  match o with Some (IntegerValue v) => NumInt v | Some FloatValue => NumFloat | None => NumBad end.
+
+Definition classify_nf (t : list N) : Res num_class :=
+  match pi_nf t with
+  | Some v => Ok (NumInt v)
+  | None =>
+    if pf_nf t then Ok NumFloat else
+    match pl_result t with
+    | Ok (Some v) => Ok (NumInt v)
+    | Ok None => Ok NumBad
+    | Fault k => Fault k
+    | OutOfFuel => OutOfFuel
+    end
+  end.
+
+Theorem classify_char s : num_clean s = true -> classify_number s = classify_nf (to_lower s).
+Proof.
+  intros Hcl. destruct (clean_lower s Hcl) as [Htrim Hlc]. unfold classify_number.
+  rewrite parse_integer_on_eq, parse_float_on_eq, parse_luajit_on_eq, Htrim.
+  set (t := to_lower s) in *. rewrite (parse_integer_char t Hlc). cbn [rbind]. unfold classify_nf.
+  destruct (pi_nf t) eqn:Hpi; [reflexivity|]. rewrite (parse_float_char t Hlc). cbn [rbind].
+  destruct (pf_nf t) eqn:Hpf; [reflexivity|]. rewrite (parse_luajit_char t Hlc Hpi Hpf).
+  destruct (pl_result t) as [[v|]|k|]; reflexivity.
+Qed.
+
+Lemma hex_int_value_skipn i : num_is_hex_int i = true ->
+  num_hex_int_value i = IntegerValue (int64_of (Z.of_N (num_value 16 (skipn 2 i)))).
+Proof. intros H. apply num_is_hex_int_iff in H as (hs & -> & _). reflexivity. Qed.
+
+(* the spec, arranged in the order of the code *)
+Lemma spec_value_lc_nf t :
+  spec_value_lc t =
+  match pi_nf t with
+  | Some v => Some (IntegerValue v)
+  | None => if pf_nf t then Some FloatValue else option_map IntegerValue (pl_nf t)
+  end.
+Proof.
+  unfold spec_value_lc, pi_nf. destruct (num_digits1 num_digit t) eqn:Hd.
+  - destruct (num_value 10 t <=? max_int64); [reflexivity|].
+    apply num_digits1_iff in Hd as [Hne Hall].
+    assert (Hpf : pf_nf t = true).
+    { unfold pf_nf, num_mant_exp. rewrite (num_span_app num_digit t [] Hall I) || rewrite <- (app_nil_r t) at 1.
+      all: try (rewrite (num_span_app num_digit t [] Hall I)).
+      apply num_nonempty_true in Hne. rewrite Hne. reflexivity. }
+    rewrite Hpf. reflexivity.
+  - destruct (num_is_hex_int t) eqn:Hh; [rewrite (hex_int_value_skipn t Hh); reflexivity|].
+    fold (pf_nf t). destruct (pf_nf t); [reflexivity|].
+    unfold pl_nf. destruct (num_strip_jit t) as [i|]; [|reflexivity].
+    destruct (num_digits1 num_digit i).
+    + destruct (num_value 10 i <? two64); reflexivity.
+    + destruct (num_is_hex_int i) eqn:Hi; [rewrite (hex_int_value_skipn i Hi); reflexivity|reflexivity].
+Qed.
+
+Lemma to_lower_lc s : map num_lc s = to_lower s.
+Proof. unfold to_lower. rewrite lower_fn. reflexivity. Qed.
+Lemma spec_value_nf s :
+  spec_value s =
+  match pi_nf (to_lower s) with
+  | Some v => Some (IntegerValue v)
+  | None => if pf_nf (to_lower s) then Some FloatValue else option_map IntegerValue (pl_nf (to_lower s))
+  end.
+Proof. unfold spec_value. rewrite to_lower_lc. apply spec_value_lc_nf. Qed.
+
+(* the code deviates from the grammar exactly on the non-numerals of the three classes *)
+Definition num_deviates (s : list N) : bool :=
+  let t := to_lower s in
+  match spec_value s with
+  | Some _ => false
+  | None => dev_short_junk t || dev_hex_one_junk t || dev_hex_cut t
+  end.
+
+Theorem number_classify_exact s :
+  num_clean s = true -> num_deviates s = false -> classify_number s = Ok (class_of (spec_value s)).
+Proof.
+  intros Hcl Hdev. rewrite (classify_char s Hcl). unfold num_deviates in Hdev. rewrite spec_value_nf in *.
+  set (t := to_lower s) in *. unfold classify_nf.
+  destruct (pi_nf t); [reflexivity|]. destruct (pf_nf t); [reflexivity|].
+  unfold pl_result. destruct (pl_nf t); [reflexivity|]. cbn [option_map] in Hdev.
+  apply orb_false_iff in Hdev as [Hdev H3]. apply orb_false_iff in Hdev as [H1 H2]. rewrite H1, H2, H3. reflexivity.
+Qed.
+
+Corollary number_numeral_complete s v :
+  num_clean s = true -> Denotes s v -> classify_number s = Ok (class_of (Some v)).
+Proof.
+  intros Hcl Hv. apply spec_value_iff in Hv. rewrite <- Hv. apply number_classify_exact; [exact Hcl|].
+  unfold num_deviates. rewrite Hv. reflexivity.
+Qed.
+
+Theorem number_ok_iff s :
+  num_clean s = true -> num_deviates s = false -> (number_accepted s = true <-> Numeral s).
+Proof.
+  intros Hcl Hdev. unfold number_accepted. rewrite (number_classify_exact s Hcl Hdev).
+  rewrite <- spec_numeral_iff. destruct (spec_value s) as [[v|]|]; cbn [class_of]; split; congruence.
+Qed.
+
+Theorem number_int_iff s v :
+  num_clean s = true -> num_deviates s = false -> (classify_number s = Ok (NumInt v) <-> IntegerNumeral s v).
+Proof.
+  intros Hcl Hdev. rewrite (number_classify_exact s Hcl Hdev). unfold IntegerNumeral. rewrite <- spec_value_iff.
+  destruct (spec_value s) as [[w|]|]; cbn [class_of]; split; congruence.
+Qed.
+
+(* float nodes: no guard beyond `clean` (the deviation classes never produce a float) *)
+Theorem number_float_iff s :
+  num_clean s = true -> (classify_number s = Ok NumFloat <-> FloatNumeral s).
+Proof.
+  intros Hcl. rewrite (classify_char s Hcl). unfold FloatNumeral. rewrite <- spec_value_iff.
+  rewrite spec_value_nf. set (t := to_lower s). unfold classify_nf.
+  destruct (pi_nf t); [split; congruence|]. destruct (pf_nf t); [tauto|].
+  destruct (pl_nf t); cbn [option_map]; destruct (pl_result t) as [[w|]|k|]; split; congruence.
+Qed.
+
+(* ---------- behaviour on the deviation classes ---------- *)
+Lemma short_junk_nf t : dev_short_junk t = true -> pi_nf t = None /\ pf_nf t = false /\ pl_nf t = None.
+Proof.
+  intros H.
+  assert (Hsh : exists c r, t = c :: r /\ is_digit c = false /\ (length r <= 1)%nat /\
+                            (c = 46 -> forallb is_digit r = true -> r = [])).
+  { destruct t as [|c [|d [|e r]]]; cbn [dev_short_junk] in H; try discriminate.
+    - exists c, []. destruct (is_digit c); [discriminate|]. cbn. auto.
+    - exists c, [d]. destruct (is_digit c); [discriminate|]. cbn [negb andb] in H. repeat split; [cbn; lia|].
+      intros -> Hd. cbn in Hd. rewrite andb_true_r in Hd. rewrite Hd in H. discriminate. }
+  destruct Hsh as (c & r & -> & Hc & Hl & Hdot).
+  assert (Hhr : hex_rest (c :: r) = None) by (destruct r as [|d [|e r']]; [reflexivity|reflexivity|cbn in Hl; lia]).
+  assert (Hsp : num_span num_digit (c :: r) = ([], c :: r)) by (cbn; rewrite <- is_digit_fn, Hc; reflexivity).
+  split; [|split].
+  - unfold pi_nf. rewrite digits1_cons. cbn [forallb]. rewrite <- is_digit_fn, Hc. cbn [andb].
+    rewrite hex_rest_is_hex_int, Hhr. reflexivity.
+  - unfold pf_nf.
+    assert (H1 : num_mant_exp num_digit 101 (c :: r) = false).
+    { unfold num_mant_exp. rewrite Hsp. destruct (c =? 46) eqn:E; [|reflexivity].
+      apply N.eqb_eq in E. destruct (num_span num_digit r) as [b r2] eqn:E2. cbn [num_nonempty orb].
+      destruct b as [|b0 b']; [reflexivity|]. exfalso.
+      destruct (num_span_spec _ _ _ _ E2) as (Hr & Hb & _).
+      destruct r as [|d [|e r']]; [discriminate| |cbn in Hl; lia].
+      destruct r2; [|apply (f_equal (@length N)) in Hr; rewrite app_length in Hr; cbn in Hr; lia].
+      rewrite app_nil_r in Hr. rewrite <- Hr in Hb. rewrite <- is_digit_fn in Hb.
+      specialize (Hdot E Hb). discriminate. }
+    rewrite H1. cbn [orb].
+    destruct (num_hex_body (c :: r)) as [r0|] eqn:Hb; [|reflexivity].
+    apply num_hex_body_some in Hb. injection Hb as -> _. discriminate.
+  - apply pl_nf_none; [|rewrite Hhr; exact I]. rewrite span_fn, is_digit_fn, Hsp. left. reflexivity.
+Qed.
+
+Theorem number_short_junk_fault s :
+  num_clean s = true -> dev_short_junk (to_lower s) = true ->
+  classify_number s = Fault IndexRange /\ spec_value s = None.
+Proof.
+  intros Hcl H. destruct (short_junk_nf _ H) as (H1 & H2 & H3). split.
+  - rewrite (classify_char s Hcl). unfold classify_nf, pl_result. rewrite H1, H2, H3, H. reflexivity.
+  - rewrite spec_value_nf, H1, H2, H3. reflexivity.
+Qed.
+
+Lemma one_junk_nf t : dev_hex_one_junk t = true ->
+  dev_short_junk t = false /\ pi_nf t = None /\ pf_nf t = false /\ pl_nf t = None.
+Proof.
+  intros H. destruct (one_junk_inv _ H) as (x & -> & Hx). split; [reflexivity|].
+  assert (Hsp : num_span num_hexdigit [x] = ([], [x])) by (cbn; rewrite <- is_hex_fn, Hx; reflexivity).
+  split; [|split].
+  - unfold pi_nf. change (num_digits1 num_digit [48; 120; x]) with false. cbn iota.
+    unfold num_is_hex_int. cbn [num_hex_body N.eqb Pos.eqb andb]. unfold num_digits1. cbn [num_nonempty forallb andb].
+    rewrite <- is_hex_fn, Hx. reflexivity.
+  - unfold pf_nf. change (num_mant_exp num_digit 101 [48; 120; x]) with false. cbn [orb num_hex_body N.eqb Pos.eqb andb].
+    unfold num_mant_exp. rewrite Hsp. destruct (x =? 46); reflexivity.
+  - apply pl_nf_none.
+    + change (span is_digit [48; 120; x]) with ([48], [120; x]). right. reflexivity.
+    + change (hex_rest [48; 120; x]) with (Some [x]). rewrite span_fn, is_hex_fn, Hsp. left. reflexivity.
+Qed.
+
+Theorem number_hex_one_junk_int0 s :
+  num_clean s = true -> dev_hex_one_junk (to_lower s) = true ->
+  classify_number s = Ok (NumInt 0) /\ spec_value s = None.
+Proof.
+  intros Hcl H. destruct (one_junk_nf _ H) as (H0 & H1 & H2 & H3). split.
+  - rewrite (classify_char s Hcl). unfold classify_nf, pl_result. rewrite H1, H2, H3, H0, H. reflexivity.
+  - rewrite spec_value_nf, H1, H2, H3. reflexivity.
+Qed.
+
+Lemma hex_cut_len t : dev_hex_cut t = true -> (18 < length t)%nat.
+Proof.
+  unfold dev_hex_cut. intros H. apply andb_true_iff in H as [_ H]. apply andb_true_iff in H as [H _].
+  apply andb_true_iff in H as [_ H].
+  assert (Hle : (length (strip23 t) <= length t)%nat).
+  { destruct (strip23_prefix t) as [-> | ->]; rewrite firstn_length; lia. }
+  lia.
+Qed.
+
+Theorem number_hex_cut_int s :
+  num_clean s = true -> dev_hex_cut (to_lower s) = true -> spec_value s = None ->
+  classify_number s = Ok (NumInt (hex_cut_value (to_lower s))).
+Proof.
+  intros Hcl H Hsp. rewrite (classify_char s Hcl). rewrite spec_value_nf in Hsp.
+  set (t := to_lower s) in *. unfold classify_nf, pl_result.
+  pose proof (hex_cut_len t H) as Hl.
+  destruct (pi_nf t); [discriminate|]. destruct (pf_nf t); [discriminate|].
+  destruct (pl_nf t); [discriminate|].
+  rewrite short_junk_len by lia. rewrite one_junk_len by lia. rewrite H. reflexivity.
+Qed.
+
+(* ---------- no Go panic ---------- *)
+Theorem number_no_fault s :
+  num_clean s = true -> dev_short_junk (to_lower s) = false -> exists c, classify_number s = Ok c.
+Proof.
+  intros Hcl H. rewrite (classify_char s Hcl). unfold classify_nf, pl_result. rewrite H.
+  destruct (pi_nf (to_lower s)); [eauto|]. destruct (pf_nf (to_lower s)); [eauto|].
+  destruct (pl_nf (to_lower s)); [eauto|].
+  destruct (dev_hex_one_junk (to_lower s)); [eauto|]. destruct (dev_hex_cut (to_lower s)); eauto.
+Qed.
+
+(* the texts lexer.scanNumber can cut out: they start with a digit or with '.' digit and consist of
+   digits, a-f A-F, u U l L, '.', p P, x X, '+', '-' *)
+Definition num_lexer_char (c : N) : bool :=
+  is_digit c || ((97 <=? c) && (c <=? 102)) || ((65 <=? c) && (c <=? 70))
+  || (c =? 117) || (c =? 85) || (c =? 108) || (c =? 76) || (c =? 46)
+  || (c =? 112) || (c =? 80) || (c =? 120) || (c =? 88) || (c =? 43) || (c =? 45).
+Definition num_token_start (s : list N) : bool :=
+  match s with
+  | c :: r => is_digit c || ((c =? 46) && match r with d :: _ => is_digit d | [] => false end)
+  | [] => false
+  end.
+Definition num_lexer_token (s : list N) : bool := forallb num_lexer_char s && num_token_start s.
+
+Lemma lexer_token_clean s : num_lexer_token s = true ->
+  num_clean s = true /\ dev_short_junk (to_lower s) = false.
+Proof.
+  unfold num_lexer_token. intros H. apply andb_true_iff in H as [Hall Hst]. split.
+  - unfold num_clean. apply andb_true_iff. split.
+    + apply forallb_forall. intros x Hx. pose proof (forallb_In _ _ _ Hall Hx) as Hc.
+      unfold num_lexer_char, is_digit in Hc. unfold is_space. lia.
+    + destruct s as [|c r]; [reflexivity|]. cbn [num_token_start] in Hst. unfold is_sign. unfold is_digit in Hst. lia.
+  - destruct s as [|c r]; [discriminate|]. cbn [num_token_start] in Hst. cbn [to_lower map].
+    assert (Hlow : forall x, is_digit x = true -> lower_byte x = x).
+    { intros x Hx. unfold lower_byte. unfold is_digit in Hx. destruct ((65 <=? x) && (x <=? 90)) eqn:E; [lia|reflexivity]. }
+    destruct (is_digit c) eqn:Hc.
+    + rewrite (Hlow c Hc). apply short_junk_digit. exact Hc.
+    + cbn [orb] in Hst. apply andb_true_iff in Hst as [Hdot Hd]. apply N.eqb_eq in Hdot. subst c.
+      destruct r as [|d r']; [discriminate|]. cbn [map]. rewrite (Hlow d Hd). change (lower_byte 46) with 46.
+      destruct r' as [|e r'']; cbn [map dev_short_junk]; [|reflexivity].
+      rewrite Hd. reflexivity.
+Qed.
+
+Corollary number_no_fault_token s : num_lexer_token s = true -> exists c, classify_number s = Ok c.
+Proof. intros H. destruct (lexer_token_clean s H) as [H1 H2]. exact (number_no_fault s H1 H2). Qed.
+
+(* for lexer tokens: exactness outside the two reachable classes *)
+Corollary number_token_exact s :
+  num_lexer_token s = true -> num_deviates s = false -> classify_number s = Ok (class_of (spec_value s)).
+Proof. intros H. destruct (lexer_token_clean s H) as [H1 _]. exact (number_classify_exact s H1). Qed.
+
+(* acceptance, without any guard beyond `clean`: the numerals plus the two accepting deviation classes *)
+Theorem number_accepted_exact s :
+  num_clean s = true ->
+  (number_accepted s = true <->
+   Numeral s \/ dev_hex_one_junk (to_lower s) = true \/ dev_hex_cut (to_lower s) = true).
+Proof.
+  intros Hcl. split.
+  - intros Hacc. destruct (num_deviates s) eqn:Hdev.
+    + unfold num_deviates in Hdev. destruct (spec_value s) eqn:Hsp; [discriminate|].
+      apply orb_true_iff in Hdev as [Hdev|Hdev]; [|auto].
+      apply orb_true_iff in Hdev as [Hdev|Hdev]; [|auto].
+      destruct (number_short_junk_fault s Hcl Hdev) as [Hf _]. unfold number_accepted in Hacc.
+      rewrite Hf in Hacc. discriminate.
+    + left. apply (number_ok_iff s Hcl Hdev). exact Hacc.
+  - intros [[v Hv]|[H|H]].
+    + unfold number_accepted. rewrite (number_numeral_complete s v Hcl Hv). destruct v; reflexivity.
+    + unfold number_accepted. destruct (number_hex_one_junk_int0 s Hcl H) as [-> _]. reflexivity.
+    + destruct (spec_value s) as [v|] eqn:Hsp.
+      * apply spec_value_iff in Hsp. unfold number_accepted.
+        rewrite (number_numeral_complete s v Hcl Hsp). destruct v; reflexivity.
+      * unfold number_accepted. rewrite (number_hex_cut_int s Hcl H Hsp). reflexivity.
+Qed.
+
+(* ---------- witnesses ---------- *)
+Definition w_x : list N := [120].                                         (* "x" *)
+Definition w_plus_ll : list N := [43; 108; 108].                          (* "+ll" *)
+Definition w_0x_dot : list N := [48; 120; 46].                            (* "0x." *)
+Definition w_dot_0x_cut : list N :=                                       (* ".0x0000000000000001ll" *)
+  [46; 48; 120] ++ repeat 48 15 ++ [49; 108; 108].
+Definition w_0x_dot_cut : list N :=                                       (* "0x.0000000000000001ll" *)
+  [48; 120; 46] ++ repeat 48 15 ++ [49; 108; 108].
+
+Lemma not_numeral_of_spec s : spec_value s = None -> ~ Numeral s.
+Proof. intros H Hn. apply spec_numeral_iff in Hn. congruence. Qed.
+
+(* the unguarded "no Go panic for any non-empty text" is false: str[len(str)-3] in parseLuajitNum *)
+Theorem number_no_fault_refuted :
+  (w_x <> [] /\ num_clean w_x = true /\ classify_number w_x = Fault IndexRange) /\
+  (w_plus_ll <> [] /\ classify_number w_plus_ll = Fault IndexRange).
+Proof. repeat split; try discriminate; vm_compute; reflexivity. Qed.
+
+(* "0x." is a lexer token, is not a numeral, and is accepted as the integer 0 *)
+Theorem number_hex_one_junk_refuted :
+  num_lexer_token w_0x_dot = true /\ classify_number w_0x_dot = Ok (NumInt 0) /\ ~ Numeral w_0x_dot.
+Proof.
+  split; [vm_compute; reflexivity|]. split; [vm_compute; reflexivity|].
+  apply not_numeral_of_spec. vm_compute. reflexivity.
+Qed.
+
+(* ".0x0000000000000001ll" and "0x.0000000000000001ll" are lexer tokens, not numerals, accepted as 1 *)
+Theorem number_hex_cut_refuted :
+  (num_lexer_token w_dot_0x_cut = true /\ classify_number w_dot_0x_cut = Ok (NumInt 1) /\ ~ Numeral w_dot_0x_cut) /\
+  (num_lexer_token w_0x_dot_cut = true /\ classify_number w_0x_dot_cut = Ok (NumInt 1) /\ ~ Numeral w_0x_dot_cut).
+Proof.
+  split; (split; [vm_compute; reflexivity|]; split; [vm_compute; reflexivity|];
+          apply not_numeral_of_spec; vm_compute; reflexivity).
+Qed.
+
+(* non-vacuity of the guards: "0x1.8p-3", "18446744073709551615ULL", "3.", ".5e+10", "0xA", "9223372036854775808" *)
+Definition w_ok : list (list N) :=
+  [ [48; 120; 49; 46; 56; 112; 45; 51];
+    [49; 56; 52; 52; 54; 55; 52; 52; 48; 55; 51; 55; 48; 57; 53; 53; 49; 54; 49; 53; 85; 76; 76];
+    [51; 46]; [46; 53; 101; 43; 49; 48]; [48; 120; 65];
+    [57; 50; 50; 51; 51; 55; 50; 48; 51; 54; 56; 53; 52; 55; 55; 53; 56; 48; 56] ].
+Example number_guard_inhabited :
+  forallb (fun s => num_lexer_token s && num_clean s && negb (num_deviates s)) w_ok = true /\
+  map classify_number w_ok = [Ok NumFloat; Ok (NumInt (-1)); Ok NumFloat; Ok NumFloat; Ok (NumInt 10); Ok NumFloat].
+Proof. split; vm_compute; reflexivity. Qed.
